@@ -16,7 +16,7 @@
 // Out:  {"stage": "parse"|"analysis"|"reject"|"ok", "msg": ..,
 //
 //	"eval": ""|"limit"|"eval"|"timeout"|"panic", "evalmsg": ..,
-//	"pre_bad": [fact text of pre facts that do not pass CheckTypeBounds themselves],
+//	"pre_bad": [pre facts that do not pass CheckTypeBounds themselves; they are NOT stored],
 //	"checked": number of facts judged, "by_pred": {"p3": n},
 //	"bad": [{"fact": text, "pred": "p3", "err": message}] (first 8)}
 package main
@@ -125,7 +125,10 @@ func runC11(in json.RawMessage) (any, error) {
 	for _, f := range pre {
 		if declared(f.Predicate) {
 			if err := checker.CheckTypeBounds(f); err != nil {
+				// the caller's facts must conform to the declarations of the
+				// extensional predicates: a candidate that does not is left out
 				out.PreBad = append(out.PreBad, f.String())
+				continue
 			}
 		}
 		preSet[f.String()] = true
@@ -162,7 +165,6 @@ func runC11(in json.RawMessage) (any, error) {
 	}
 	// whatever was stored (also before a limit / an evaluation error) is subject to the guarantee
 	var facts []ast.Atom
-	store.GetFacts(ast.NewQuery(ast.PredicateSym{}), func(a ast.Atom) error { return nil })
 	factstore.GetAllFacts(&store, func(a ast.Atom) error {
 		facts = append(facts, a)
 		return nil
